@@ -649,6 +649,14 @@ func (e *engine) transition(b Builder, src Model, path []*Call, c *Call, exp Exp
 			f = g
 		}
 	}
+	if f != nil && (strings.HasPrefix(f.sig, "compile-error-not-sticky") || strings.HasPrefix(f.sig, "nondeterministic-error-text")) {
+		// Not judged. (a) The sticky first error of the statement is the build error set by Add* calls; whether
+		// a Compile-time rejection (missing entry/exit edge, invalid option) must poison later calls is not
+		// stated. (b) "The same outcome on every attempt" is accept/reject; an error text that lists the same
+		// names in map order, or names another node of the same cycle, is the same outcome.
+		e.c.Count("not_judged:"+strings.SplitN(f.sig, ":", 2)[0], 1)
+		f = nil
+	}
 	nt := c.IsCompile() || src.Status() != stLive || (exp.V == vReject)
 	if !nt {
 		nt = nontrivial(b, seq)
